@@ -36,10 +36,9 @@ func FlattenItemCollection(col ItemCollection) ItemCollection {
 	if col == nil {
 		return col
 	}
-	for k, it := range ItemCollectionDeduplication(&col) {
-		if iri := it.GetLink(); iri != "" {
-			col[k] = iri
-		}
+	ItemCollectionDeduplication(&col)
+	for k, it := range col {
+		col[k] = FlattenToIRI(it)
 	}
 	return col
 }
